@@ -1,5 +1,5 @@
 (* Correspondence glue for the pair world (harness/mux). *)
-From PV Require Import Common.Wire Mux.Sys.
+From PV Require Import Common.Wire Mux.Sys Mux.BridgeSys.
 
 Definition parse_cfg (idx : N) (l : list N) : option (ep * list N) :=
   match l with
@@ -51,7 +51,17 @@ Definition parse_label (l : list N) : option label :=
   | _ => None
   end.
 
-Fixpoint parse_labels (fuel : nat) (l : list N) : option (list label) :=
+Definition parse_blabel (l : list N) : option blabel :=
+  match l with
+  | [30; e; sid] => Some (BStart e sid)
+  | [31; k] => Some (BPoll k)
+  | 32 :: k :: 0 :: r => match parse_lp r with Some (d, []) => Some (BFeed k 0 d) | _ => None end
+  | [32; k; 3; n] => Some (BFeed k 3 [n])
+  | [32; k; kind] => Some (BFeed k kind [])
+  | _ => option_map BL (parse_label l)
+  end.
+
+Fixpoint parse_labels (fuel : nat) (l : list N) : option (list blabel) :=
   match fuel with
   | O => match l with [] => Some [] | _ => None end
   | S f =>
@@ -60,7 +70,7 @@ Fixpoint parse_labels (fuel : nat) (l : list N) : option (list label) :=
       | _ =>
           match parse_lp l with
           | Some (lab, r) =>
-              match parse_label lab with
+              match parse_blabel lab with
               | Some x => option_map (cons x) (parse_labels f r)
               | None => None
               end
@@ -88,7 +98,7 @@ Definition run_mux (c : list N) : list N :=
           match parse_cfg 1 r1 with
           | Some (b, r2) =>
               match parse_labels (length r2) r2 with
-              | Some ls => flat_map put_lout (snd (run (mkSys a b [] []) ls))
+              | Some ls => flat_map put_lout (snd (brun (mkBsys (mkSys a b [] []) []) ls))
               | None => MALFORMED
               end
           | None => MALFORMED
